@@ -99,13 +99,25 @@ def validate(pfx, q):
 
 
 class World:
-    """contents of the two live tables after every writer operation"""
+    """contents of the two live tables after every atomic step of the writer.  An operation is one step, except
+    pfx_table_src_remove (one critical section per address family: IPv4 first) and a successful reload (prefix-table
+    swap, then router-key swap): their intermediate states are table contents a reader can legitimately see.
+    `vend[k]` = index of the state after operation k.  With atomic_reload=True the reload is modelled as one step
+    (what C06 would like to hold across both tables)."""
 
-    def __init__(self):
+    def __init__(self, atomic_reload=False):
         self.pfx = [frozenset()]
         self.keys = [frozenset()]
         self.kinds = ["init"]
         self.exp_rc = [0]
+        self.vend = [0]
+        self.step_kind = ["init"]       # per state: kind of the step that produced it
+        self.atomic_reload = atomic_reload
+
+    def push(self, p, k, kind):
+        self.pfx.append(frozenset(p))
+        self.keys.append(frozenset(k))
+        self.step_kind.append(kind)
 
     def apply(self, op):
         p = set(self.pfx[-1])
@@ -117,38 +129,50 @@ class World:
                 rc = -2
             else:
                 p.add(op[1])
+            self.push(p, k, kind)
         elif kind == "rm":
             if op[1] in p:
                 p.discard(op[1])
             else:
                 rc = -3
+            self.push(p, k, kind)
         elif kind == "srcrm":
+            p4 = {r for r in p if not (r[5] == op[1] and r[0] == 4)}
+            if p4 != p and any(r[5] == op[1] and r[0] == 6 for r in p):
+                self.push(p4, k, "srcrm-v4")
             p = {r for r in p if r[5] != op[1]}
+            self.push(p, k, kind)
         elif kind == "kadd":
             if op[1] in k:
                 rc = -2
             else:
                 k.add(op[1])
+            self.push(p, k, kind)
         elif kind == "krm":
             if op[1] in k:
                 k.discard(op[1])
             else:
                 rc = -3
+            self.push(p, k, kind)
         elif kind == "ksrcrm":
             k = {r for r in k if r[3] != op[1]}
+            self.push(p, k, kind)
         elif kind == "reload":
             src, precs, krecs = op[1], op[2], op[3]
             np_ = [r[:5] + (src,) for r in precs]
             nk = [r[:3] + (src,) for r in krecs]
             if len(set(np_)) != len(np_) or len(set(nk)) != len(nk):
                 rc = -1          # duplicate announcement inside the new set: reload fails, live tables untouched
+                self.push(p, k, "reload-failed")
             else:
-                p = {r for r in p if r[5] != src} | set(np_)
-                k = {r for r in k if r[3] != src} | set(nk)
-        self.pfx.append(frozenset(p))
-        self.keys.append(frozenset(k))
+                p2 = {r for r in p if r[5] != src} | set(np_)
+                k2 = {r for r in k if r[3] != src} | set(nk)
+                if not self.atomic_reload and p2 != p and k2 != k:
+                    self.push(p2, k, "reload-pfx-swapped")
+                self.push(p2, k2, kind)
         self.kinds.append(kind)
         self.exp_rc.append(rc)
+        self.vend.append(len(self.pfx) - 1)
 
 
 def expected(world, cache, ver, pi, probe):
@@ -411,15 +435,16 @@ def run_harness(exe, mode, script_text, tag, timeout=300):
     return out.splitlines(), rc, tsan, err
 
 
-def check_observations(script, out, stats):
-    """linearizability + monotonicity oracle.  returns list of failure strings"""
-    world = World()
+def check_observations(script, out, stats, atomic_reload=False):
+    """linearizability + monotonicity oracle.  returns list of (kind, message)"""
+    world = World(atomic_reload)
     for op in script.ops:
         world.apply(op)
-    nver = len(world.pfx) - 1
+    nver = len(world.kinds) - 1
     fails = []
     cache = {}
     lo = {}
+    count = stats is not None
     wl = [l for l in out if l.startswith("W ")]
     if len(wl) != nver:
         fails.append(("corr", "writer executed %d operations, script has %d" % (len(wl), nver)))
@@ -428,11 +453,11 @@ def check_observations(script, out, stats):
         _, k, rc = l.split()
         k, rc = int(k), int(rc)
         kind = world.kinds[k]
-        stats["ops"][kind] = stats["ops"].get(kind, 0) + 1
-        stats["rc"]["%s:%d" % (kind, rc)] = stats["rc"].get("%s:%d" % (kind, rc), 0) + 1
+        if count:
+            stats["ops"][kind] = stats["ops"].get(kind, 0) + 1
+            stats["rc"]["%s:%d" % (kind, rc)] = stats["rc"].get("%s:%d" % (kind, rc), 0) + 1
         if rc != world.exp_rc[k]:
             fails.append(("corr", "operation %d (%s) returned %d, set semantics says %d" % (k, kind, rc, world.exp_rc[k])))
-    reload_vers = {k for k in range(1, nver + 1) if world.kinds[k] == "reload" and world.exp_rc[k] == 0}
     for l in out:
         if not l.startswith("R "):
             continue
@@ -440,29 +465,34 @@ def check_observations(script, out, stats):
         tid, pi, a, b = int(tid), int(pi), int(a), int(b)
         res = (int(st), int(cnt), int(h))
         probe = script.probes[pi]
-        stats["obs"] += 1
-        stats["width"][min(b - a, 5)] = stats["width"].get(min(b - a, 5), 0) + 1
-        stats["probe_kind"][probe[0]] = stats["probe_kind"].get(probe[0], 0) + 1
-        cands = [expected(world, cache, j, pi, probe) for j in range(a, b + 1)]
-        if len(set(cands)) > 1:
-            stats["contended"].add((script.name, pi, a, b))
-            if any(j in reload_vers and expected(world, cache, j, pi, probe) != expected(world, cache, j - 1, pi, probe)
-                   for j in range(max(a, 1), b + 1)):
-                stats["reload_contended"].add((script.name, pi, a, b))
-        start = max(a, lo.get(tid, 0))
+        va, vb = world.vend[a], world.vend[b]
+        if count:
+            stats["obs"] += 1
+            stats["width"][min(b - a, 5)] = stats["width"].get(min(b - a, 5), 0) + 1
+            stats["probe_kind"][probe[0]] = stats["probe_kind"].get(probe[0], 0) + 1
+            cands = {expected(world, cache, j, pi, probe) for j in range(va, vb + 1)}
+            if len(cands) > 1:
+                stats["contended"].add((script.name, pi, a, b))
+                if any(world.step_kind[j].startswith("reload") and
+                       expected(world, cache, j, pi, probe) != expected(world, cache, j - 1, pi, probe)
+                       for j in range(va + 1, vb + 1)):
+                    stats["reload_contended"].add((script.name, pi, a, b))
+        start = max(va, lo.get(tid, 0))
         found = None
-        for j in range(start, b + 1):
+        for j in range(start, vb + 1):
             if expected(world, cache, j, pi, probe) == res:
                 found = j
                 break
         if found is None:
-            back = [j for j in range(a, min(start, b + 1)) if expected(world, cache, j, pi, probe) == res]
+            back = [j for j in range(va, min(start, vb + 1)) if expected(world, cache, j, pi, probe) == res]
             if back:
-                fails.append(("mono", "reader %d probe %d %r: result %r is the answer of version %d, but this reader had already "
-                              "observed version %d (window %d..%d): new and afterwards old" % (tid, pi, probe, res, back[-1], start, a, b)))
+                fails.append(("mono", "reader %d probe %d %r: result %r is the answer for table state #%d (%s), but this reader had "
+                              "already observed state #%d (%s) (window: operations %d..%d): new and afterwards old" % (
+                                  tid, pi, probe, res, back[-1], world.step_kind[back[-1]], start, world.step_kind[start], a, b)))
             else:
                 fails.append(("lin", "reader %d probe %d %r: result %r is not the answer for the table contents at any instant of "
-                              "its window (versions %d..%d: %r)" % (tid, pi, probe, res, a, b, cands[:4])))
+                              "its window (operations %d..%d, expected one of %r)" % (
+                                  tid, pi, probe, res, a, b, [expected(world, cache, j, pi, probe) for j in range(va, vb + 1)][:4])))
             if len(fails) > 20:
                 break
         else:
@@ -572,8 +602,9 @@ def run(pid, tier):
         return rep.finish()
 
     stats = {"scripts": 0, "ops": {}, "rc": {}, "obs": 0, "width": {}, "probe_kind": {}, "contended": set(),
-             "reload_contended": set(), "tsan_reports": 0, "crashes": 0, "corpus": 0, "xtable_runs": 0}
+             "reload_contended": set(), "tsan_reports": 0, "crashes": 0, "corpus": 0, "xtable_runs": 0, "xtable_live": 0}
     failures = []   # (kind, script, detail, tsan, err)
+    xlive = []      # stress runs in which a reader saw new prefixes with old router keys
 
     def run_script(script, tag):
         out, rc, tsan, err = run_harness(exe, "stress", script.text(), tag)
@@ -586,8 +617,15 @@ def run(pid, tier):
             return
         if nrace:
             failures.append(("race", script, "; ".join(tsan_summary(tsan)), tsan, err))
-        for kind, msg in check_observations(script, out, stats)[:3]:
+        fl = check_observations(script, out, stats)
+        for kind, msg in fl[:3]:
             failures.append((kind, script, msg, tsan, err))
+        if not fl:
+            # the same observations judged against a reload that replaces BOTH tables in one step
+            fx = [f for f in check_observations(script, out, None, atomic_reload=True) if f[0] in ("mono", "lin")]
+            if fx:
+                stats["xtable_live"] += 1
+                xlive.append((script, fx[0][1]))
 
     # corpus first
     for path in corpus_files(".ops"):
@@ -627,6 +665,7 @@ def run(pid, tier):
             "probe_kinds": stats["probe_kind"], "contended_observations": len(stats["contended"]),
             "reload_contended_observations": len(stats["reload_contended"]), "tsan_reports": stats["tsan_reports"],
             "crashes": stats["crashes"], "xtable_runs": stats["xtable_runs"],
+            "stress_runs_with_cross_table_observation": stats["xtable_live"],
             "ir_functions": len(gen_locks_info().get("fns", [])), "ir_rewritten": gen_locks_info().get("changed"),
             "ir_violations": [list(b) for b in ir_bad],
         },
@@ -671,7 +710,10 @@ def run(pid, tier):
                               "# and got the OLD keys.  The two swaps are separate critical sections (Rtr.C06.cross_table_gap).\n"
                               "# schedule: a reader is inside a read section of the live router-key table (read lock held), the\n"
                               "# synchronising thread blocks in spki_table_swap; a second reader runs validate + get_all.\n"
-                              "# %s\n# replay: build/h_locks_*/locks xtable %s\n%s\n" % (xl, path, open(path).read()),
+                              "# %s\n# replay: build/h_locks_*/locks xtable %s\n%s\n%s" % (
+                                  xl, path, open(path).read(),
+                                  "".join("# also seen without any parked reader, in stress script %s: %s\n" % (sc.name, m)
+                                          for sc, m in xlive[:3])),
                               signature="C06/cross-table")
     if corr and not real:
         rep.build_log = "\n".join(f[2] for f in corr[:5]) + "\n" + corr[0][1].text()[:3000]
